@@ -15,6 +15,7 @@ Plan format (plain data):
 
 from __future__ import annotations
 
+import os
 from dataclasses import dataclass
 from typing import Any, ClassVar
 
@@ -514,37 +515,47 @@ def collect(results) -> dict:
 
 
 def drive(engine, plan: dict, log=None):
-    """Applies the API script. Returns (list of mid-run result snapshots, events)."""
+    """Applies the API script.  An exception escaping from a call the script is entitled to make
+    is a failure of the system under test (SutError), not of the harness."""
+    from simkit.core import SutError
+
     events = []
     for n, op in enumerate(plan["script"]):
         kind = op[0]
-        if kind == "append":
-            try:
-                engine.append_epoch(cfg(op[1]))
-                events.append(("append", "ok"))
-            except RuntimeError:
-                events.append(("append", "rejected"))
-        elif kind == "next":
-            engine.sample_next_epoch()
-            events.append(("next", "ok"))
-        elif kind == "all":
-            engine.sample_all_epochs()
-            events.append(("all", "ok"))
-        elif kind == "next_empty":
-            try:
+        try:
+            if kind == "append":
+                try:
+                    engine.append_epoch(cfg(op[1]))
+                    events.append(("append", "ok"))
+                except RuntimeError:
+                    events.append(("append", "rejected"))
+            elif kind == "next":
                 engine.sample_next_epoch()
-                events.append(("next_empty", "sampled"))
-            except RuntimeError:
-                events.append(("next_empty", "raised"))
-        elif kind == "results":
-            r = engine.get_results()
-            n_stored = None
-            try:
-                s = r.get_samples()
-                n_stored = int(np.asarray(next(iter(s.values()))).shape[1])
-            except Exception:  # no samples yet
-                n_stored = "none"
-            events.append(("results", n_stored))
+                events.append(("next", "ok"))
+            elif kind == "all":
+                engine.sample_all_epochs()
+                events.append(("all", "ok"))
+            elif kind == "next_empty":
+                try:
+                    engine.sample_next_epoch()
+                    events.append(("next_empty", "sampled"))
+                except RuntimeError:
+                    events.append(("next_empty", "raised"))
+            elif kind == "results":
+                r = engine.get_results()
+                n_stored = None
+                try:
+                    s = r.get_samples()
+                    n_stored = int(np.asarray(next(iter(s.values()))).shape[1])
+                except RuntimeError:  # no samples yet
+                    n_stored = "none"
+                events.append(("results", n_stored))
+        except Exception as e:
+            import traceback
+
+            tb = traceback.extract_tb(e.__traceback__)
+            where = next((f"{os.path.basename(fr.filename)}:{fr.name}" for fr in reversed(tb) if "/liesel/" in fr.filename), "?")
+            raise SutError(f"{kind}|{type(e).__name__}|{where}|{e}") from e
         if log is not None:
             log.add("op", n, op, events[-1])
     return events
